@@ -80,8 +80,8 @@ func defaultOptions() options {
 		maxDecisions:  600,
 		maxThreads:    24,
 		concretizeMax: 16,
-		solverBin:     "z3",
-		solverTmoMs:   20000,
+		solverBin:     "z3-new",
+		solverTmoMs:   10000,
 		workers:       14,
 		maxPaths:      200000,
 		jsonMaxElems:  2,
@@ -349,7 +349,27 @@ func (e *engine) explore(h *harnessSpec) *harnessResult {
 			}
 		}()
 	}
+	stopProg := make(chan struct{})
+	if os.Getenv("VERIF_PROGRESS") != "" {
+		go func() {
+			tk := time.NewTicker(10 * time.Second)
+			defer tk.Stop()
+			for {
+				select {
+				case <-stopProg:
+					return
+				case <-tk.C:
+					mu.Lock()
+					q.mu.Lock()
+					fmt.Fprintf(os.Stderr, "progress %s: paths=%d queue=%d active=%d queries=%d solver=%.0fs wrapchecks=%d\n", h.name, res.paths, len(q.items), q.active, gstats.queries, float64(gstats.solverNs)/1e9, gstats.wrapChecks)
+					q.mu.Unlock()
+					mu.Unlock()
+				}
+			}
+		}()
+	}
 	wg.Wait()
+	close(stopProg)
 	res.wall = time.Since(t0).Seconds()
 	if res.boundHit {
 		res.inconcl = append(res.inconcl, fmt.Sprintf("path bound %d reached before the decision tree was exhausted", maxPaths))
@@ -382,6 +402,7 @@ func (e *engine) runPathPinned(h *harnessSpec, fn *ssa.Function, prefix []int, s
 		doneCh:   make(chan struct{}),
 		stash:    map[string]value{},
 		stubs:    map[string]value{},
+		bounds:   map[string]interval{},
 	}
 	base := solver.depth
 	solver.Push()
